@@ -69,21 +69,32 @@ func formatSchema(g *Gen, depth int) M {
 	case 5:
 		return M{"allOf": []any{formatSchema(g, depth-1), g.Schema(depth - 1)}}
 	default:
-		deps := M{pick(r, propNames): formatSchema(g, depth-1)}
-		if r.Chance(600) {
+		// a schema-valued dependency applies to the whole object: it reaches a format checker through a property
+		depSchema := func() M {
+			if r.Chance(300) {
+				return formatSchema(g, depth-1)
+			}
+			return M{"properties": M{pick(r, propNames): leaf()}}
+		}
+		deps := M{pick(r, propNames): depSchema()}
+		if r.Chance(700) {
 			// several members with a dependency each (schema-valued and list-valued): work queued per member
-			for i := 0; i < r.Range(1, 2); i++ {
+			for i := 0; i < r.Range(1, 3); i++ {
 				k := pick(r, propNames)
 				if _, dup := deps[k]; !dup {
 					if r.Chance(500) {
 						deps[k] = []any{pick(r, propNames)}
 					} else {
-						deps[k] = formatSchema(g, depth-1)
+						deps[k] = depSchema()
 					}
 				}
 			}
 		}
-		return M{"type": "object", "patternProperties": M{pick(r, ppPatterns[:5]): formatSchema(g, depth-1)}, "dependencies": deps}
+		o := M{"type": "object", "dependencies": deps}
+		if r.Chance(400) {
+			o["patternProperties"] = M{pick(r, ppPatterns[:5]): formatSchema(g, depth-1)}
+		}
+		return o
 	}
 }
 
@@ -123,15 +134,22 @@ func formatInstance(g *Gen, s M, depth int) any {
 			o["z"] = formatInstance(g, ap, depth+1)
 		}
 		if deps, ok := s["dependencies"].(M); ok {
+			// every member that has a dependency is present; members that a dependency schema describes carry a value
+			// that drives validation into its format
+			for _, k := range sortedKeys(deps) {
+				if _, has := o[k]; !has {
+					o[k] = 1
+				}
+			}
 			for _, k := range sortedKeys(deps) {
 				if sub, ok := deps[k].(M); ok {
-					if ps, ok := sub["properties"].(M); ok && ps[k] != nil {
-						o[k] = formatInstance(g, ps[k].(M), depth+1)
-						continue
+					if ps, ok := sub["properties"].(M); ok {
+						for _, pk := range sortedKeys(ps) {
+							if psub, ok := ps[pk].(M); ok {
+								o[pk] = formatInstance(g, psub, depth+1)
+							}
+						}
 					}
-					o[k] = formatInstance(g, sub, depth+1)
-				} else {
-					o[k] = 1
 				}
 			}
 		}
